@@ -531,7 +531,7 @@ def _e2e_case(draw):
             mapping.append([[bead, 1 if weight is None else weight] for bead, weight in entry])
         restypes.append({'n_atoms': n_atoms, 'parents': parents, 'n_beads': n_beads,
                          'dummy': draw(st.integers(0, 3)) == 3, 'mapping': mapping})
-    rtypes = draw(st.lists(st.integers(0, n_types - 1), min_size=1, max_size=4))
+    rtypes = draw(_ints(0, n_types - 1, draw(st.integers(1, 4))))
     residues = [{'type': rtype, 'atoms': _draw_atoms(draw, restypes[rtype]['n_atoms'], False)} for rtype in rtypes]
     return {'restypes': restypes, 'residues': residues,
             'center': ['unset', 'mass', 'mass'][head[0] % 3],
@@ -670,7 +670,7 @@ def _run_e2e(case):
 
 PARTS = [
     Part('direct', _run_direct, strategy=_strategy_direct,
-         examples={'quick': 16000, 'thorough': 400000},
+         examples={'quick': 20000, 'thorough': 480000},
          floors={'nontrivial': 0.15, 'shared-atom': 0.3, 'mass-weighted': 0.2, 'mass-present-but-unused': 0.15,
                  'nan:all-missing': 0.02, 'nan:zero-weights': 0.02, 'zero-weight-positioned-atom': 0.1,
                  'particle-without-graph-skipped': 0.03, 'rejected-ValueError': 0.01, 'rejected-KeyError': 0.01,
@@ -679,7 +679,7 @@ PARTS = [
                  'weights-dict-order-differs-from-graph': 0.2,
                  'weight-False-overrides-center_weight': 0.02}),
     Part('e2e', _run_e2e, strategy=_strategy_e2e,
-         examples={'quick': 3200, 'thorough': 48000},
+         examples={'quick': 4000, 'thorough': 64000},
          floors={'nontrivial': 0.05, 'shared-atom': 0.3, 'mass-weighted': 0.3, 'normalized-weights': 0.1,
-                 'nan:nobody-maps-here': 0.1, 'multi-residue': 0.4, 'mixed-missing-and-positioned': 0.2}),
+                 'nan:nobody-maps-here': 0.1, 'multi-residue': 0.25, 'mixed-missing-and-positioned': 0.2}),
 ]
